@@ -281,6 +281,68 @@ def size_worker(job):
     return part.dump()
 
 
+def spend_worker(job):
+    """the commitment phase of real --tx/--txin sessions: the control block and the leaf script are taken from the witness as BIP341
+    says (second-to-last / last element after an annex has been removed), whatever else the witness carries"""
+    bindir, idx, n = job
+    from checks import c03
+    rng = sub_rng(PROP, 'spend', idx)
+    part = Partial()
+    wd = scratch('c05p')
+    try:
+        scs = []
+        sats = ['valid', 'annex', 'annex', 'many-checks-annex', 'control-parity', 'control-node', 'control-internal-key', 'extra-witness-item', 'wrong-script', 'initial-stack-998-annex']
+        for i in range(n):
+            sat = sats[(idx + i) % len(sats)]
+            try:
+                sc = c03.build(rng, 'p2tr-script', sat)
+            except Exception:
+                continue
+            if sat == 'annex' and rng.random() < 0.5:
+                # annexes of other sizes (the builder's is 3 bytes); the signature does not matter for the commitment phase
+                w = list(sc['tx'].wit[sc['idx']])
+                w[-1] = b'\x50' + rsign.rnd_bytes(rng, rng.choice([0, 5, 32, 64, 65, 100]))
+                sc['tx'].wit[sc['idx']] = w
+            sc['id'] = 'p%d.%d' % (idx, i)
+            sc['sat'] = sat
+            scs.append(sc)
+        cases = [(sc['id'], ['N ' + sc['id'], 'TX ' + rtx.ser_tx(sc['tx']).hex().encode().hex(), 'TI %s -1' % rtx.ser_tx(sc['fund']).hex().encode().hex(), 'CF', 'SU', 'CS']) for sc in scs]
+        events, crashes, hangs = run_harness_cases(bindir, cases, wd)
+        for cr in crashes:
+            part.violation('crash:spend:' + cr.key, dict(id=cr.case_id, log=cr.log[-1500:]))
+        for sc in scs:
+            evs = parse_events(events.get(sc['id'], []))
+            if any(k == 'CRASH' for k, e in evs):
+                continue
+            part.evaluations += 1
+            w = list(sc['tx'].wit[sc['idx']])
+            if len(w) >= 2 and w[-1][:1] == b'\x50':
+                w = w[:-1]
+            if len(w) < 2:
+                continue
+            control, script = w[-1], w[-2]
+            q = sc['spk'][2:]
+            want = taproot.control_size_ok(control) and taproot.verify_commitment(control, q, script)
+            m = (len(control) - 33) // 32
+            wit = dict(kind='spend/' + sc['sat'], tx=rtx.ser_tx(sc['tx']).hex(), txin=rtx.ser_tx(sc['fund']).hex(), control=control.hex()[:200], script=script.hex()[:200], program=q.hex())
+            cf = [e for k, e in evs if k == 'CF']
+            u = [e for k, e in evs if k == 'U']
+            st = [e for k, e in evs if k == 'S']
+            set_up = bool(cf) and cf[0][1] == '1' and bool(u) and u[0].ret
+            passed = set_up and len(st) >= m + 1 and all(e.ret for e in st[:m + 1])
+            part.count('spend_commitments', '%s => %s' % (sc['sat'], 'holds' if want else 'does not hold'))
+            if want and not passed:
+                # (unknown leaf versions / OP_SUCCESS are not generated here)
+                part.violation('spend-commitment-rejected-although-it-holds', wit)
+            elif not want and passed:
+                part.violation('spend-commitment-accepted-although-it-does-not-hold', wit)
+            else:
+                part.nontrivial.add(nt_hash('spend', control, script, q))
+    finally:
+        cleanup_scratch(wd)
+    return part.dump()
+
+
 def main():
     ap = argparse.ArgumentParser()
     ap.add_argument('--tier', default=os.environ.get('VERIF_TIER', 'quick'))
@@ -310,6 +372,8 @@ def main():
         sizes = sorted(set(sizes + list(range(0, 33 + 32 * 130, 7)) + [33 + 32 * k for k in range(0, 131)]))
     chunks = [sizes[i::16] for i in range(16)]
     for r in parallel(size_worker, [(bindir, i, ch) for i, ch in enumerate(chunks)]):
+        rep.merge(r)
+    for r in parallel(spend_worker, [(bindir, i, 20 if a.tier == 'quick' else 300) for i in range(16)]):
         rep.merge(r)
     pl = rep.tables.get('path_len', {})
     return rep.finish(
